@@ -1,7 +1,7 @@
 """C07 - tables are insertion-ordered maps keyed by value."""
 from cardsem import *
 
-INV = ["DistinctKeys", "SetGet", "MissingIsNil", "AppendRule", "PopRule", "Frame"]
+INV = ["DistinctKeys", "SetGet", "MissingIsNil", "AppendRule", "PopRule", "Frame", "RefusedChangesNothing"]
 
 
 def main(tier, seed):
